@@ -13,12 +13,35 @@ from vmstate import diff
 HYP_HEADER = dc.HEADER + "From Hera.Proofs Require Import C11_Hyps.\n"
 
 
-def make_sessions(rng, n, kinds_of, sizes=(3, 8, 15), finish_of=lambda k: False, inner_calls=0.0):
+# programs whose run ends by leaving the program: backwards past instruction 0 (pc = -1, -2, ... within and beyond
+# the program's length), past the end by a register branch, off the end without HALT
+LEAVING = [
+    "INC(R1, 1)\nBRR(-3)\nINC(R2, 1)\nINC(R3, 1)\n",
+    "INC(R1, 1)\nBRR(-2)\nINC(R2, 1)\n",
+    "SET(R1, 5)\nINC(R2, 1)\nBRR(-5)\nINC(R3, 1)\nINC(R4, 1)\nINC(R5, 1)\n",
+    "LABEL(top)\nINC(R1, 1)\nCMP(R1, R0)\nBZR(top)\nBRR(-9)\nINC(R2, 1)\nINC(R3, 1)\nINC(R4, 1)\nINC(R5, 1)\nINC(R6, 1)\n",
+    "SET(R1, 50)\nBR(R1)\nINC(R2, 1)\n",
+    "INC(R1, 1)\nBRR(-100)\nINC(R2, 1)\n",
+    "INC(R1, 1)\nINC(R2, 1)\n",
+    "BRR(-2)\nINC(R2, 1)\nINC(R3, 1)\nHALT()\n",
+]
+
+
+# the same operand-less pseudo-operation at several places of one program (seed C12d: their expansions were shared
+# objects, so every occurrence carried the last one's source line)
+REPEATED = [
+    "NOP()\nINC(R1, 1)\nNOP()\nINC(R2, 1)\nNOP()\nNOP()\nCON()\nINC(R3, 1)\nCON()\nCBON()\nCOFF()\nCBON()\nHALT()\nNOP()\n",
+    "CCBOFF()\nCOFF()\nCCBOFF()\nINC(R1, 2)\nCOFF()\nNOP()\nHALT()\nHALT()\n",
+]
+
+
+def make_sessions(rng, n, kinds_of, sizes=(3, 8, 15), finish_of=lambda k: False, inner_calls=0.0, fixed_texts=()):
     out = []
     tries = 0
+    fixed = list(fixed_texts)
     while len(out) < n and tries < 5 * n:
         tries += 1
-        text = dc.gen_source(rng)
+        text = fixed.pop(0) if fixed else dc.gen_source(rng)
         opts = dc.gen_opts(rng)
         got = dc.load(text, opts, "debug")
         if got is None or not got[0].code:
@@ -77,12 +100,52 @@ def correspondence(tag, sessions, model_available=True, check_history=True):
 STEPPING = ("(CNext", "CStep", "CContinue", "(CBreak", "(CClear", "CClearAll", "CMutNop", "CNop")
 
 
+REG_BRANCHES = {"BR", "BL", "BGE", "BLE", "BG", "BULE", "BUG", "BZ", "BNZ", "BC", "BNC", "BS", "BNS", "BV", "BNV"}
+NO_CODE = {"LABEL", "DLABEL", "CONSTANT", "INTEGER", "LP_STRING", "TIGER_STRING", "DSKIP"}
+
+
+def source_line_map(text):
+    """Which source line every instruction of the loaded program must carry, worked out from the text alone
+    (one operation per line, as the generators write them; expansion lengths from the HERA manual) — independent
+    of the bookkeeping (`original`, `loc`) the preprocessor attaches.  None when the text is not of that shape."""
+    import re
+    lines = []
+    for no, raw in enumerate(text.split("\n"), 1):
+        t = raw.strip()
+        if not t or t.startswith("//") or t.startswith("#"):
+            continue
+        m = re.match(r"^([A-Za-z_]+)\((.*)\)$", t)
+        if not m or t.count("(") != 1:
+            return None
+        name, args = m.group(1), [a.strip() for a in m.group(2).split(",")] if m.group(2).strip() else []
+        up = name.upper()
+        if up in NO_CODE:
+            continue
+        is_reg = lambda a: re.match(r"^(R\d+|FP|SP|RT|PC_RET|FP_ALT)$", a.upper()) is not None
+        if up in REG_BRANCHES:
+            k = 1 if (args and is_reg(args[0])) else 3
+        elif up == "CALL":
+            k = 1 if (len(args) == 2 and is_reg(args[1])) else 3
+        else:
+            k = {"SET": 2, "CMP": 2, "SETRF": 4, "FLAGS": 2, "NEG": 2, "NOT": 3}.get(up, 1)
+        lines += [no] * k
+    return lines
+
+
 def run_oracle(s, budget_ops=200000):
     """C11 + C12 on the implementation alone.  Returns (problem or None, stats)."""
     stats = {"commands": 0, "finished": 0, "warnings": 0}
     rs = dc.RealSession(s["text"], s["opts"])
     if not rs.ok:
         return "front end rejected the generated program", stats
+    want_lines = source_line_map(s["text"])
+    if want_lines is not None:
+        got_lines = [o.loc.line if getattr(o, "loc", None) is not None else None for o in rs.program.code]
+        if got_lines != want_lines:
+            k = next((i for i, (a, b) in enumerate(zip(got_lines, want_lines)) if a != b), min(len(got_lines), len(want_lines)))
+            return ("instruction %d of the loaded program is attributed to source line %r; it comes from line %r (the debugger "
+                    "shows, breaks on and steps by these lines)" % (k, got_lines[k] if k < len(got_lines) else None,
+                                                                   want_lines[k] if k < len(want_lines) else None)), stats
     tr = dc.Tracer(s["text"], s["opts"])
     limit = [budget_ops]
     out, err = rs.init_out, rs.init_err
@@ -131,6 +194,11 @@ def run_oracle(s, budget_ops=200000):
         if ref is None:
             return "the interpreter rejects a program the debugger accepted", stats
         if "raise" in ref:
+            # the debugger has driven the same program to its end within the operation budget
+            if ref["raise"] == "Budget":
+                return "the debugger run finished, the interpreter does not terminate on the same program", stats
+            if ref["raise"] != "SystemExit":
+                return "the debugger run finished, the interpreter raised %s" % ref["raise"], stats
             return None, stats
         a = dc.snap_debugger(rs.shell.debugger)
         a.pop("bps"); a.pop("calls")
